@@ -168,21 +168,95 @@ def _same_item(x, y):
     return z3.eq(x, y)
 
 
+def _bits_to_bytes(bits):
+    out = bytearray((len(bits) + 7) // 8)
+    for i, b in enumerate(bits):
+        if b:
+            out[i // 8] |= 1 << (i % 8)
+    return builtins.bytes(out)
+
+
+_FIXED_EMPTY = [0, 1, 0] + [0] * 7          # BFINAL=0 BTYPE=01, end-of-block
+_FIXED_EMPTY_FINAL = [1, 1, 0] + [0] * 7
+
+
+def _deflate_tail(t):
+    """t >= 2 bytes of byte-aligned deflate data that add nothing and end
+    the stream (empty blocks)"""
+    if t in (2, 3, 4, 5):
+        m = {2: 1, 3: 2, 4: 3, 5: 4}[t]
+        return _bits_to_bytes(_FIXED_EMPTY * (m - 1) + _FIXED_EMPTY_FINAL)
+    if t == 6:      # empty fixed block, then an empty final stored block
+        return _bits_to_bytes(_FIXED_EMPTY + [1, 0, 0]) + b'\x00\x00\xff\xff'
+    return b'\x00\x00\x00\xff\xff' + _deflate_tail(t - 5)
+
+
+def zlib_of_length(data, L):
+    """a valid zlib stream of exactly L bytes that inflates to `data`, or
+    None (real compression of the content, then padding with empty deflate
+    blocks)"""
+    data = builtins.bytes(data)
+    for level in (9, 6, 1, 0):
+        if len(_zlib.compress(data, level)) == L:
+            return _zlib.compress(data, level)
+    for level in (9, 0):
+        c = _zlib.compressobj(level, _zlib.DEFLATED, -15)
+        body = c.compress(data) + c.flush(_zlib.Z_SYNC_FLUSH)
+        t = L - (2 + len(body) + 4)
+        if t >= 2:
+            out = b'\x78\x9c' + body + _deflate_tail(t) + \
+                _zlib.adler32(data).to_bytes(4, 'big')
+            assert len(out) == L and _zlib.decompress(out) == data
+            return out
+    return None
+
+
 class ZlibStub:
     """zlib as an uninterpreted injective function: compress(x) is a fresh
     symbolic byte string of length clen(len(x)); decompress returns x iff its
     argument is *structurally* that string, else raises zlib.error."""
     error = _zlib.error
 
-    def __init__(self):
+    def __init__(self, choose_length=False):
         self.table = []
         self.sym = Ctx.cur.mode == 'sym'
+        # choose_length: the LENGTH of compress(x) is an input (any length
+        # real deflate can produce for x, which must then be concrete; the
+        # replay builds a real zlib stream of that length)
+        self.choose_length = choose_length
 
     @staticmethod
     def clen(n):
         return n // 2 + 3
 
+    def length_range(self, data):
+        data = builtins.bytes(data)
+        hi = len(data) + 13
+        lo = hi
+        while lo > 2 and zlib_of_length(data, lo - 1) is not None:
+            lo -= 1
+        return lo, hi
+
     def compress(self, data, *a):
+        if self.choose_length:
+            ctx = Ctx.cur
+            items = bytes_items(data)
+            if not all(isinstance(b, int) or z3.is_bv_value(b)
+                       for b in items):
+                raise core.Unsupported('choose_length needs concrete data')
+            raw = builtins.bytes(b if isinstance(b, int) else b.as_long()
+                                 for b in items)
+            k = len(self.table)
+            lo, hi = self.length_range(raw)
+            L = concretize(ctx.int('zlen%d' % k, lo, hi))
+            if not self.sym:
+                out = zlib_of_length(raw, L)
+                self.table.append((list(out), list(raw)))
+                return out
+            out = SBytes([z3.BitVec('z%d[%d]' % (k, i), 8)
+                          for i in range(L)])
+            self.table.append((out.items, list(raw)))
+            return out
         if not self.sym:
             out = _zlib.compress(builtins.bytes(data), *a)
             self.table.append((list(out), list(data)))
